@@ -43,7 +43,7 @@ NoFz == [j |-> 0]
 VerdictOf ==
   [ C04 |-> {"replay_differs", "pruned_replay_differs", "prune_not_meaning", "mask_mismatch", "word_mismatch"},
     C13 |-> {"decode_mismatch", "status_mismatch", "fuzz_nondeterministic", "extension_changes_outcome", "fuzz_not_faithful",
-             "word_mismatch", "mask_mismatch", "fuzz_crashed", "overrun_not_at_end"} ]
+             "word_mismatch", "mask_mismatch", "fuzz_crashed", "overrun_not_at_end", "hangs"} ]
 Verdicts == IF Property = "ALL" THEN UNION { VerdictOf[p] : p \in DOMAIN VerdictOf } ELSE VerdictOf[Property]
 
 Init == /\ l = 1 /\ scen = [id |-> ""] /\ viol = {} /\ words = <<>> /\ wpos = 0 /\ fz = NoFz /\ obs = NoObs
@@ -196,11 +196,14 @@ OnceEnd ==
 
 RunBegin == /\ Is("run.begin") /\ Adv /\ runno' = Ev.run /\ UNCHANGED <<scen, viol, words, wpos, fz, obs, res, pr, kind, iter>>
 
-Handled == {"sm.action.begin", "sm.action.end", "cinv.begin", "cinv.end", "run.begin", "scen.begin", "scen.end", "h.phase", "h.ff.load", "h.fuzz.buf", "fuzz.begin", "h.bits", "h.overrun", "h.prune.begin", "h.prune.end",
+Handled == {"hang", "sm.action.begin", "sm.action.end", "cinv.begin", "cinv.end", "run.begin", "scen.begin", "scen.end", "h.phase", "h.ff.load", "h.fuzz.buf", "fuzz.begin", "h.bits", "h.overrun", "h.prune.begin", "h.prune.end",
             "draw", "call", "inv.begin", "inv.end", "fuzz.end", "h.once.end"}
+\* the watchdog saw an invocation still running after 90 s: the library hung
+Hang == /\ Is("hang") /\ Adv /\ viol' = viol \cup {"hangs"} /\ UNCHANGED <<scen, words, wpos, fz, obs, res, pr, kind, runno, iter>>
+
 Other == /\ l <= Len(Trace) /\ Trace[l].ev \notin Handled /\ Adv /\ UNCHANGED <<scen, viol, words, wpos, fz, obs, res, pr, kind, runno, iter>>
 
-Next == AttemptBegin \/ AttemptEnd \/ RunBegin \/ ScenBegin \/ ScenEnd \/ Phase \/ FFLoad \/ FuzzBuf \/ FuzzBegin \/ Bits \/ Overrun \/ PruneBegin \/ PruneEnd \/ Draw \/ Call
+Next == Hang \/ AttemptBegin \/ AttemptEnd \/ RunBegin \/ ScenBegin \/ ScenEnd \/ Phase \/ FFLoad \/ FuzzBuf \/ FuzzBegin \/ Bits \/ Overrun \/ PruneBegin \/ PruneEnd \/ Draw \/ Call
         \/ InvBegin \/ InvEnd \/ FuzzEnd \/ OnceEnd \/ Other
 Spec == Init /\ [][Next]_vars
 
